@@ -656,12 +656,17 @@ static void runCase(Sink &sink, const Args &a, long cs)
             }
             if (getenv("VERIF_DEBUG"))
                 fprintf(stderr, "case %ld plan: %s %s %s delta=%g lambda=%g tol=%g range=%g thr=%g obst=%zu dist(start,goal)=%g\n", cs, man->name.c_str(), SPACE_NAME[spaceKind], PLANNER_NAME[plannerKind], delta, lambda, tol, range, thr, obst.size(), css->distance(start.get(), goal.get()));
+            // cost control (counts only): RRTConnect's connect step runs many geodesics per evaluation on the atlas spaces, and
+            // one-dimensional manifolds (circle = sphere-cap-plane in R^3) are usually cut by the ball obstacles, so that the
+            // planner spends its whole budget while the atlas degenerates
+            if (spaceKind > 0 && plannerKind == 1) budget = std::min<long>(budget, thorough ? 1500 : 600);
+            if (spaceKind > 0 && man->getManifoldDimension() == 1) budget = std::min<long>(budget, 300);
             pl->setProblemDefinition(pdef);
             pl->setup();
             std::atomic<long> evals{0};
             const bool stopOnExact = plannerKind != 4 || rng.coin(0.5);
             const bool dbg = getenv("VERIF_DEBUG") != nullptr;
-            const size_t chartCap = 1500;
+            const size_t chartCap = man->getManifoldDimension() == 1 ? 600 : 1500;
             std::atomic<bool> chartCapped{false};
             ob::PlannerStatus st = pl->solve(ob::PlannerTerminationCondition([&] {
                 long e = ++evals;
